@@ -236,6 +236,21 @@ func (c *zzCancelCtx) cancel() {
 		ch.cancel()
 	}
 }
+// Model of context.WithValue (the real one asks reflectlite whether the key is comparable).
+type zzValueCtx struct {
+	zzcontext.Context
+	key, val any
+}
+
+func (c *zzValueCtx) Value(k any) any {
+	if k == c.key {
+		return c.val
+	}
+	return c.Context.Value(k)
+}
+func zzWithValue(parent zzcontext.Context, key, val any) zzcontext.Context {
+	return &zzValueCtx{parent, key, val}
+}
 func zzWithCancel(parent zzcontext.Context) (zzcontext.Context, zzcontext.CancelFunc) {
 	c := &zzCancelCtx{parent: parent, done: make(chan struct{})}
 	if p, ok := parent.(*zzCancelCtx); ok {
